@@ -22,13 +22,13 @@ CLAIMS = {
          "For every startable subset of mechanisms a real instance is driven with generated Authorization headers (absent, bare or truncated keywords, wrong case, disabled schemes, several header lines, Basic right/wrong/undecodable, NTLM exchanges in and out of order and across connections). Reaching the tunnel handler (101 / legacy 200+seed) must be justified by a confirming verdict in the backend's log for exactly these credentials, correct credentials of an enabled scheme must reach it, a request without header gets 401 with one challenge per enabled scheme, and after a confirmed login as user k only 127.0.0.k is reachable. Kerberos: there is no KDC, the harness issues the service ticket itself under the gateway's keytab key (valid) or a foreign key (must be refused). PAM is out of reach here (no PAM headers): its verdicts are the fake service's.",
          "4 C05"),
  "C06": ("property-based testing: generated stream pairs, packetisations and schedules vs byte-exact stream equality + independent packet decoder (rapid)",
-         "Two position-dependent byte streams (up to 256 KiB quick / 2 MiB thorough), a split of the client stream into DATA packets (boundary sizes, length fields shorter/longer than carried), a split of the host stream into writes and an interleaving are generated; the host must receive exactly the declared payloads and the client exactly the host stream, every DATA packet decoding strictly. In-process and real binary, both transports.",
+         "Two position-dependent byte streams (up to 256 KiB quick / 2 MiB thorough), a split of the client stream into DATA packets (boundary sizes, length fields shorter/longer than carried), a split of the host stream into writes and an interleaving are generated; the host must receive exactly the declared payloads and the client exactly the host stream, every DATA packet decoding strictly. In-process and real binary, both transports. A second unit lets one side stop draining for up to 6.5 s (8 s thorough) while the other keeps sending, optionally with further tunnels relaying and with keep-alives or CLOSE_CHANNEL sent meanwhile; afterwards both streams must be complete and exact.",
          "4 C06"),
  "C07": ("stateful property-based testing of concurrent tunnel programs with tagged streams; per-tunnel solo-expectation oracle (rapid)",
-         "Programs of concurrent tunnels are generated; every 64-byte block on every stream carries tunnel index, direction and offset, each user's allowed host is a distinct loopback address (127.0.0.<user>), so a byte, a phase, a user identity, a token host or a connection leaking from one tunnel into another is observed as a wrong block, a wrong endpoint, a refused valid set-up or an accepted invalid one. A legacy pairing probe sends on RDG_IN_DATA with an identifier similar to, but different from, an open RDG_OUT_DATA's. Client-side schedule is generated; server-side interleavings are sampled.",
+         "Programs of concurrent tunnels are generated; every 64-byte block on every stream carries tunnel index, direction and offset, each user's allowed host is a distinct loopback address (127.0.0.<user>), so a byte, a phase, a user identity, a token host or a connection leaking from one tunnel into another is observed as a wrong block, a wrong endpoint, a refused valid set-up or an accepted invalid one. A legacy pairing probe sends on RDG_IN_DATA with an identifier similar to, but different from, an open RDG_OUT_DATA's. Client-side schedule is generated (incl. a legacy pair whose second request waits for another tunnel's end, and cookies of different accounts carrying the same subject); server-side interleavings are sampled. The same workload is also run against the race-detector build: memory touched by two tunnels without synchronisation is reported whatever the interleaving.",
          "4 C07"),
  "C08": ("metamorphic property-based testing: same packet sequence under generated segmentations (rapid)",
-         "For generated packet sequences and generated segmentations of their byte stream (one/two/multi cuts, header cuts, coalescing, free cuts) the history (responses, accepts, relayed bytes, end) must equal the one-packet-per-unit run; unframeable streams must end the tunnel without later effects. Exploration.",
+         "For generated packet sequences and generated segmentations of their byte stream (one/two/multi cuts, header cuts, coalescing, free cuts) the history (responses, accepts, relayed bytes, end) must equal the one-packet-per-unit run; unframeable streams must end the tunnel without later effects. Further modes: over-long inner length fields inside coalesced reads, the first legacy chunk travelling with the request head, and a unit in which the client stays silent after every complete packet until its effect is observed. Exploration.",
          "4 C08"),
  "C09": ("randomised concurrent workload generation against a race-detector build (rapid + go build -race); oracle: race reports, runtime faults, frame integrity",
          "Generated multi-client workload programs are run against the real binary built with -race; any 'WARNING: DATA RACE', concurrent-map or concurrent-write fault on its stderr, and any packet received by a client that does not decode strictly, is a violation. The race detector reports unsynchronised pairs that executed, independent of the interleaving actually taken; pairs the workloads never execute are not covered (DESIGN.md section 8).",
@@ -52,7 +52,7 @@ CLAIMS = {
          "Tokens around a minted one are generated for both key modes and checked at security.UserInfo and at the /tokeninfo handler: MUST-REJECT => error / 403 without any claim in the body, minted for U => 200 with sub U, 400/405 as stated, user name not readable from the token text; the verdict comes from the harness's own AES-CBC + HMAC + inflate implementation (stdlib only), not from go-jose.",
          "4 C15"),
  "C16": ("property-based testing with an independent strict MS-TSGU decoder and a reference encoding of the redirection policy (rapid)",
-         "All server packets of generated sessions (all 128 redirect-switch combinations, idle timeouts over int32, every outcome script, both transports, in-process and through the real binary's Caps.* configuration) are decoded strictly (type, header length, fieldsPresent vs bytes) and compared with the reference model (status 0 iff accepted, specific status codes) and the reference encoding of redirection flags and idle timeout.",
+         "All server packets of generated sessions (all 128 redirect-switch combinations, idle timeouts over int32, every outcome script, both transports, in-process and through the real binary's Caps.* configuration) are decoded strictly (type, header length, fieldsPresent vs bytes) and compared with the reference model (status 0 iff accepted, specific status codes) and the reference encoding of redirection flags and idle timeout. A further unit has the answer to CLOSE_CHANNEL built while the relay's write to a non-reading client is blocked and other tunnels build packets: every message received afterwards must still be exactly one well-formed packet.",
          "4 C16"),
  "C17": ("property-based testing against a reference predicate (rapid), exhaustive over the 4 x 65536 capability table in the thorough tier",
          "Every generated (server setting, client capability value, version bytes, transport) is sent as a handshake and compared with the reference predicate from the statement, including the advertised mechanisms, the version echo, the answer to the next step and the end of the tunnel on mismatch.",
